@@ -92,6 +92,25 @@ let run (path : string) =
         predfail ~case:!case ~step:!step ~pred:"holds_C06_withdraw" ~kf:"none"
           ~detail:(Printf.sprintf "rx=%s,ry=%s,ps=%s,pc=%s,fee=%s,x=%s,y=%s" rx ry ps pc fee x y)
     end in
+  let roots_cache : (string * bool) option ref = ref None in
+  (* CreateRangedPool returned a pool: accepted (ax, ay) of offered (x, y) *)
+  let check_create ~x ~y ~mn ~mx ~init ~ax ~ay =
+    if is_nonneg x && is_nonneg y then begin
+      bump "eval:C06_create";
+      if ax = x && ay = y then bump "create:all-of-both-accepted(balanced)"
+      else if ax = x then bump "create:all-x" else if ay = y then bump "create:all-y" else bump "create:neither";
+      if not (holds_C06_create (z x) (z y) (z ax) (z ay)) then
+        predfail ~case:!case ~step:!step ~pred:"holds_C06_create" ~kf:"none"
+          ~detail:(Printf.sprintf "offered_x=%s,y=%s,accepted_x=%s,y=%s,min=%s,max=%s,initial=%s" x y ax ay mn mx init);
+      (* the hypothesis of c06_create_ranged_bounded_partial about the Newton square roots *)
+      let key = mn ^ "," ^ mx ^ "," ^ init in
+      let roots_ok = (match !roots_cache with
+          | Some (k, v) when k = key -> v
+          | _ -> let v = ranged_roots_ok (z mn) (z mx) (z init) in roots_cache := Some (key, v); v) in
+      if not roots_ok then
+        predfail ~case:!case ~step:!step ~pred:"ranged_roots_ok" ~kf:"none"
+          ~detail:(Printf.sprintf "min=%s,max=%s,initial=%s" mn mx init)
+    end else bump "create:malformed-input" in
   let after_op o ~rx' ~ry' ~ps' =
     (* thread the model state, diff, and judge the implementation's state transition *)
     let m' = pstep !ranged !mstate o in
@@ -137,13 +156,22 @@ let run (path : string) =
                (Printf.sprintf "%s,%s,%s,%s,%s" (zs p.r_rx) (zs p.r_ry) (zs p.r_ps) (zs p.r_tx) (zs p.r_ty))
                (Printf.sprintf "%s,%s,%s,%s,%s" ax ay ps tx ty);
            mstate := { p_rx = p.r_rx; p_ry = p.r_ry; p_ps = p.r_ps }; live := (res = "ok");
-           (* accepted amounts never exceed the offered ones *)
-           if res = "ok" && is_nonneg x && is_nonneg y && not (Z.leq (zz ax) (zz x) && Z.leq (zz ay) (zz y) && is_nonneg ax && is_nonneg ay) then
-             predfail ~case:!case ~step:!step ~pred:"create_ranged_bounded" ~kf:"none"
-               ~detail:(Printf.sprintf "x=%s,y=%s,ax=%s,ay=%s" x y ax ay)
+           (* accepted amounts never exceed the offered ones: the extracted predicate on the implementation's amounts *)
+           if res = "ok" then check_create ~x ~y ~mn ~mx ~init ~ax ~ay
          | Base.Err c -> bump ("ranged:err" ^ zs c); mm "ranged.result" "err" res
          | Base.Panic -> bump "ranged:model-panic"; mm "ranged.result" "panic" res);
         istate := { p_rx = z ax; p_ry = z ay; p_ps = z ps }
+      | "cre" :: x :: y :: mn :: mx :: init :: res :: ax :: ay :: [] ->
+        incr step; incr steps; bump "obs:CreateRangedPool";
+        Buffer.add_string sig_ (";c" ^ x ^ "," ^ y);
+        (match create_ranged_amounts (z x) (z y) (z mn) (z mx) (z init) with
+         | Base.Ok (a, b) ->
+           (* the amounts are followed by NewRangedPool, which can panic on its own *)
+           if res = "err" then mm "cre.result" "ok" res;
+           if res = "ok" then mm "cre.(ax,ay)" (zs a ^ "," ^ zs b) (ax ^ "," ^ ay)
+         | Base.Err c -> bump ("cre:err" ^ zs c); mm "cre.result" "err" res
+         | Base.Panic -> mm "cre.result" "panic" res);
+        if res = "ok" then check_create ~x ~y ~mn ~mx ~init ~ax ~ay
       | "case" :: id :: "rangedraw" :: rx :: ry :: ps :: mn :: mx :: res :: tx :: ty :: [] ->
         start id line; incr steps; bump "op:NewRangedPool"; ranged := true; rmin := z mn; rmax := z mx;
         mstate := { p_rx = z rx; p_ry = z ry; p_ps = z ps }; istate := !mstate;
